@@ -59,6 +59,28 @@ class PybindWrapper:
             "svg", "png", "jpeg", "html", "javascript", "markdown", "latex"
         ]
 
+    @staticmethod
+    def _cpp_string_literal(text):
+        """
+        Escape `text` for use as the body of a C++ string literal (in a UTF-8 source file).
+
+        Quotes, backslashes and control characters are escaped; control
+        characters use 3-digit octal escapes, which (unlike hex escapes) cannot
+        absorb a following digit. All other characters are emitted as they are.
+        """
+        simple = {'\\': '\\\\', '"': '\\"', '\n': '\\n', '\t': '\\t', '\r': '\\r'}
+        escaped = []
+        for char in text:
+            code = ord(char)
+            if char in simple:
+                escaped.append(simple[char])
+            elif code < 0x20 or code == 0x7f:
+                escaped.append('\\' + chr(48 + (code >> 6)) +
+                               chr(48 + ((code >> 3) & 7)) + chr(48 + (code & 7)))
+            else:
+                escaped.append(char)
+        return "".join(escaped)
+
     def _py_args_names(self, args):
         """Set the argument names in Pybind11 format."""
         names = args.names()
@@ -277,9 +299,8 @@ class PybindWrapper:
                    suffix=suffix,
                    # Try to get the function's docstring from the Doxygen XML.
                    # If extract_docstring errors or fails to find a docstring, it just prints a warning.
-                   # The incantation repr(...)[1:-1].replace('"', r'\"') replaces newlines with \n 
-                   # and " with \" so that the docstring can be put into a C++ string on a single line.
-                   docstring=', "' + repr(self.xml_parser.extract_docstring(self.xml_source, cpp_class, cpp_method, method.args.names()))[1:-1].replace('"', r'\"') + '"' 
+                   # The docstring is escaped so that it can be put into a C++ string on a single line.
+                   docstring=', "' + self._cpp_string_literal(self.xml_parser.extract_docstring(self.xml_source, cpp_class, cpp_method, method.args.names())) + '"'
                        if self.xml_source != "" else "",
                ))
 
